@@ -117,6 +117,19 @@ def arguments_in(e):
     return out
 
 
+def _has_symbolic_exponent(e):
+    seen, stack = set(), [e]
+    while stack:
+        o = stack.pop()
+        if id(o) in seen:
+            continue
+        seen.add(id(o))
+        if type(o).__name__ == "Power" and type(o.ufl_operands[1]).__name__ not in ("IntValue", "FloatValue", "ComplexValue", "Zero"):
+            return True
+        stack.extend(o.ufl_operands)
+    return False
+
+
 _SKIP_NODES = ("MultiIndex", "Label", "ExprList", "ExprMapping", "EQ", "NE", "LT", "GT", "LE", "GE", "AndCondition", "OrCondition", "NotCondition")
 
 
@@ -540,6 +553,11 @@ def case(ctx, i, rng):
     if rng.random() < 0.2:
         return
     opts = cfd_options(rng, cplx)
+    if cplx and _has_symbolic_exponent(I):
+        # by-catch, not C14: complex-mode preprocessing calls float() on the exponent (comparison_checker.power) and
+        # float(<non-literal expression>) does not terminate in this tree; such forms are only checked directly
+        ctx.count("cfd_skipped_symbolic_exponent_complex")
+        return
     try:
         form = I * c["U"].measure(rng.choice([None, None, 1, (1, 2)]))
         if rng.random() < 0.25 and c["kind"] in ("valid", "mutate") and args and c["desc"] != "valid:gen":
